@@ -2021,6 +2021,13 @@ def run_C12(ctx):
         s["perm"] = add({"argv": ["validate"] + rargs(ro) + dargs(do) + sflags, "files": files})
         s["perm_r"] = ro
         s["dir_a"] = add({"argv": ["validate", "-r", "{DIR}/rd", "-d", "{DIR}/dd", "-a"] + sflags, "files": files})
+        # a data file and a rules file reached through symbolic links are files like the others
+        fl_ = dict(files)
+        fl_["store/d0.json"] = files["dd/d0.json"]
+        fl_["dd/d0.json"] = {"symlink": "store/d0.json"}
+        fl_["store/r0.guard"] = files["rd/r0.guard"]
+        fl_["rd/r0.guard"] = {"symlink": "store/r0.guard"}
+        s["dir_link"] = add({"argv": ["validate", "-r", "{DIR}/rd", "-d", "{DIR}/dd", "-a"] + sflags, "files": fl_})
         mt = {name: 1700000000 + rng.randrange(100000) for name in files}
         s["dir_m"] = add({"argv": ["validate", "-r", "{DIR}/rd", "-d", "{DIR}/dd", "-m"] + sflags, "files": files, "mtimes": mt})
         s["mt"] = mt
@@ -2078,12 +2085,12 @@ def run_C12(ctx):
         pm = reports(outs[s["perm"]])
         if pm != expected(s["perm_r"]):
             res.judge_failures.append(dict(info, what="giving the files in another order changes a pair's result", **{"class": "c12-order"}))
-        for key in ("dir_a", "dir_m"):
+        for key in ("dir_a", "dir_m", "dir_link"):
             dr = reports(outs[s[key]])
             if dr is None:
                 res.judge_failures.append(dict(info, what="directory run %s failed: exit %s %s" % (key, outs[s[key]]["code"], outs[s[key]]["stderr"][:200]), **{"class": "c12-dir"}))
                 continue
-            order = list(range(nr)) if key == "dir_a" else sorted(range(nr), key=lambda k: s["mt"]["rd/r%d.guard" % k])
+            order = list(range(nr)) if key != "dir_m" else sorted(range(nr), key=lambda k: s["mt"]["rd/r%d.guard" % k])
             if dr != expected(order):
                 res.judge_failures.append(dict(info, what="walking directories (%s) changes a pair's result" % key, got=dr, want=expected(order), **{"class": "c12-dir"}))
         # payload: data names are DATA_STDIN[i]
